@@ -39,6 +39,9 @@ def one_op(rng, victim=None, at=None, op=None):
             d["phase"] = rng.choice(PHASES)
     if op == "inject":
         d["wellformed"] = rng.random() < 0.7
+    if op == "early-side":
+        d["as"] = rng.choice(["fresh", "fresh", "own"])
+        d["keep"] = rng.random() < 0.4
     return d
 
 
@@ -113,6 +116,22 @@ def run_case(spec):
         if pv:
             viol.append({"key": "C02/delivered/" + pv[0], "msg": "%s: %s after ops %s" % (rx.name, pv[1], [o["op"] for o in spec["ops"]]),
                          "witness": wit(rx)})
+        # every delivered item must be backed by a frame the victim processed that carried the peer's
+        # real side, the right phase and a body the peer really submitted
+        peer_side = tx.w._boss._side
+        genuine = {(m.get("phase"), m.get("body")) for (cid, sd, m) in world.server_cmds if m.get("type") == "add" and sd == peer_side}
+        backed = {m.get("phase") for (_, m) in rx.inbound if m.get("type") == "message" and m.get("side") == peer_side
+                  and (m.get("phase"), m.get("body")) in genuine}
+        need = (["version"] if rx.all("versions") else []) + [str(i) for i in range(len(rx.msgs))]
+        if rx.all("verifier") and not (backed - {"pake"}):
+            need = ["version"] + need
+        for ph in need:
+            if ph not in backed:
+                viol.append({"key": "C02/accepted-without-genuine-frame/" + ("version" if ph == "version" else "message"),
+                             "msg": "%s reported %s but never processed a frame (side=peer, phase=%s, body as submitted); ops %s" % (
+                                 rx.name, "versions/verifier" if ph == "version" else "message %s" % ph, ph, [o["op"] for o in spec["ops"]]),
+                             "witness": wit(rx)})
+                break
         got_v = rx.all("versions")
         if len(got_v) > 1:
             viol.append({"key": "C02/versions-twice", "msg": "%s got versions %d times" % (rx.name, len(got_v)), "witness": wit(rx)})
